@@ -61,6 +61,17 @@ Definition sstep (x : ikind) (i : inst) (t : temporality) (tm : nat -> N) (s : s
       ({| s_regs := reg_step (s_regs s) o; s_agg := s_agg s; s_n := s_n s |}, [])
   | Collect w script _ =>
       if negb (includes w (is_delta t)) then (s, []) else
+      if cancelled w then
+        (* produce with a context that is already done: the first callback runs (its observations
+           reach this pipeline's aggregators), then ctx.Err() ends the collection: no aggregation is
+           computed, nothing is returned.  (With no callback registered the context is never looked
+           at: [normalize] has turned that case into an ordinary Collect.) *)
+        ({| s_regs := s_regs s;
+            s_agg := if is_async x
+                     then measure_all (cfg_of x t) (vm x (delivered (firstn 1 (s_regs s)) script i)) (s_agg s)
+                     else s_agg s;
+            s_n := s_n s |}, [])
+      else
       (* produce: callbacks first (their errors are joined and returned with the data), then the
          aggregation is computed regardless *)
       let a1 := if is_async x
@@ -79,7 +90,7 @@ Fixpoint srun (x : ikind) (i : inst) (t : temporality) (tm : nat -> N) (h : list
 (** the trace of instrument [i] of kind [x] under a reader of temporality [t];
     [t0] = instant the aggregator was created, [tm n] = instant of its n-th collection *)
 Definition stream (x : ikind) (i : inst) (t : temporality) (t0 : N) (tm : nat -> N) (h : list op) : list sobs :=
-  srun x i t tm h {| s_regs := []; s_agg := new_agg t0; s_n := 0 |}.
+  srun x i t tm (normalize h []) {| s_regs := []; s_agg := new_agg t0; s_n := 0 |}.
 
 (** the clock is an oracle of non-decreasing instants *)
 Definition monotone (tm : nat -> N) : Prop := forall a b, (a <= b)%nat -> (tm a <= tm b)%N.
